@@ -89,7 +89,9 @@ fn materialise(dir: &Path, case: &Case, now: i128) {
     if case.temps != 0 {
         let tdir = dir.join(".kismet_temp");
         shim::passthrough(|| std::fs::create_dir_all(&tdir).unwrap());
-        let ages: [i128; 5] = [LIMIT - 10 * SEC, LIMIT - SEC, LIMIT, LIMIT + SEC, LIMIT + 3600 * SEC];
+        // (the second one a tenth of a second short of the limit: the clock sits at .05 s of its second, see `run_case`,
+        // so that this file's mtime falls in an earlier calendar second than "now - limit" although it is younger)
+        let ages: [i128; 5] = [LIMIT - 10 * SEC, LIMIT - SEC / 10, LIMIT, LIMIT + SEC, LIMIT + 3600 * SEC];
         for (b, age) in ages.iter().enumerate() {
             if case.temps & (1 << b) != 0 {
                 world::plant(&tdir.join(TEMP_NAMES[b]), b"tmp", 0o600, now - age, now - age);
@@ -201,6 +203,8 @@ fn judge(case: &Case, before: &Snapshot, after: &Snapshot, pruned: bool, cleaned
 
 pub fn run_case(case: &Case, rep: &mut Report) -> Vec<(String, String)> {
     run::reset_env();
+    // the clock at 50 ms past a whole second: ages just short of the limit then straddle a calendar second
+    shim::clock_virtual((run::base_time_ns() / 1_000_000_000) * 1_000_000_000 + 50_000_000, 1_000_000);
     let sc = Scratch::new();
     let now = shim::clock_peek_ns() as i128;
     let mut bad = Vec::new();
@@ -310,7 +314,7 @@ pub fn run(tier: Tier, shard: Shard, rep: &mut Report) {
     rep.rule = format!(
         "directory populations: every sequence of n <= {} key-named files over {{old unread, old read, new unread}} x \
          {} subsets of foreign objects (.app old, .app2 new, .appdir/, sub/, key-like directory) x {} subsets of \
-         .kismet_temp contents (ages limit-10s, limit-1s, exactly limit, limit+1s, limit+1h, old subdirectory, young second hard link, and the .kismet_temp directory itself idle for two hours or not; plain caches also named by the empty path to an application file, old hard \
+         .kismet_temp contents (ages limit-10s, limit-0.1s with the clock 50 ms into its second, exactly limit, limit+1s, limit+1h, old subdirectory, young second hard link, and the .kismet_temp directory itself idle for two hours or not; plain caches also named by the empty path to an application file, old hard \
          link to a published entry) x capacity 0..=n+1 x maintenance forced through plain set, plain put, sharded put, \
          sharded temp_dir, stacked ensure. Non-trivial = a foreign object or a temp file with a decided fate is present.",
         max_n,
